@@ -68,7 +68,9 @@ fn run_case(i: usize, mut rng: jjv::Rng) -> CaseOut {
     let outside0 = ws.outside_listing();
     let matcher = prefix_matcher(&sparse);
     let diff = real_diff(&ws.wc_tree(), &t2m, &matcher).expect("plain diff");
+    fs_trace_start();
     let res = outcome(ws.check_out(&t2m));
+    let calls = fs_trace_stop(&ws.root);
     let disk1 = list_disk(&ws.root);
     let states1 = ws.file_states();
     let outside_ok = ws.outside_listing() == outside0;
@@ -161,6 +163,7 @@ fn run_case(i: usize, mut rng: jjv::Rng) -> CaseOut {
             coq_disk(&disk1),
             coq_states(&states1),
             coq::b(outside_ok),
+            coq_calls(&calls),
             coq::list(prims.iter(), |s| s.clone()),
             coq_disk(&disk2),
         ],
@@ -194,6 +197,7 @@ fn main() {
     jjv::run("C25", "C25", |ctx| {
         // TestEnvironment creates its directories under TMPDIR: keep them in our scratch
         unsafe { std::env::set_var("TMPDIR", &ctx.scratch) };
+        install_fs_trace();
         let outs = par_cases(ctx, run_case);
         for (i, o) in outs {
             if o.panicked {
